@@ -608,7 +608,13 @@ func (s *Server) inheritClientSession(pk packets.Packet, cl *Client) bool {
 		// Clean the state of the existing client to prevent sequential take-overs
 		// from increasing memory usage by inflights + subs * client-id.
 		s.UnsubscribeClient(existing)
-		existing.ClearInflights()
+		for _, tk := range existing.State.Inflight.GetAll(false) {
+			// the messages now belong to cl: drop the old copies without telling the
+			// hooks, a storage hook would delete the live session's in-flight records
+			if ok := existing.State.Inflight.Delete(tk.PacketID); ok {
+				atomic.AddInt64(&s.Info.Inflight, -1)
+			}
+		}
 
 		s.Log.Debug("session taken over", "client", cl.ID, "old_remote", existing.Net.Remote, "new_remote", cl.Net.Remote)
 
